@@ -28,6 +28,7 @@ package dns
 //@ iface RR.pack [C16]
 //@   opt no-safety
 //@   writes msg
+//@   modifies MS.mapLstringJint MS.mapLstringJuint16
 
 //@ iface EDNS0.copy [C16]
 //@   opt no-safety
@@ -93,10 +94,11 @@ package dns
 //@ func packRR [C16]
 //@   opt no-safety
 //@   writes msg
+//@   modifies MS.mapLstringJint MS.mapLstringJuint16
 //@ func PackRR [C16]
 //@   opt no-safety
 //@   writes msg
-//@   modifies H.RR_Header.Rdlength.v@rr
+//@   modifies H.RR_Header.Rdlength.v@rr MS.mapLstringJint@compression MS.mapLstringJuint16@compression
 
 // signing and verifying work on copies of the records
 //@ func rawSignatureData [C16 C10]
